@@ -6,19 +6,19 @@ import EG.Model.Circle
 namespace EG.Driver
 open EG
 
-def alignOf : Nat → StrokeAlignment | 0 => .inside | 1 => .center | _ => .outside
+private def alignOf : Nat → StrokeAlignment | 0 => .inside | 1 => .center | _ => .outside
 
 def parseCol (s : String) : Option Color := if s == "-" then none else some (parseNat s)
 
 def fmtCircle (c : Circle) : String := s!"{c.tl.x},{c.tl.y},{c.d}"
 
-def fmtCall : Call → String
+private def fmtCall : Call → String
   | .drawIter px => "di:" ++ fmtPix px
   | .fillContiguous a cs => s!"fc:{fmtRect a}:{fmtNats cs}"
   | .fillSolid a c => s!"fs:{fmtRect a}:{c}"
   | .clear c => s!"cl:{c}"
 
-def fmtLog (cs : List Call) : String := joinOr "|" (cs.map fmtCall)
+private def fmtLog (cs : List Call) : String := joinOr "|" (cs.map fmtCall)
 
 def handleCircle (stream : String) (t : Toks) : Option String :=
   match stream with
